@@ -35,6 +35,9 @@ type Leaf struct {
 	Via    []string // library functions crossed (innermost last), for diagnostics
 	Sliced bool   // a Slice with explicit bounds was applied on the way
 	V      ssa.Value
+	Hops    int   // number of cursor advances x[lo:] (lo != 0) between the origin and the value (minimum over trails)
+	Off     int64 // constant low bound of the window x[lo:hi] nearest to the value, -1 when none/non-constant
+	Marks   map[string]bool // codec markers (binary.Uint32, binary.PutUint16, ...) seen on any trail to this origin
 	LenOnly bool    // reached only through len()/cap(): the length, not the content, flows
 	Args   [][]Leaf // for calls cut by StopAt: the origins of each argument (receiver first)
 }
@@ -77,6 +80,8 @@ type Slicer struct {
 	StopAt func(call ssa.CallInstruction, callee *ssa.Function) bool
 	seen   map[sliceKey]bool
 	out    map[string]Leaf
+	hops   int      // cursor advances crossed on the current walk
+	win    []int64  // constant low bounds of window slices crossed (outermost first)
 	trail  []string // library functions entered on the current walk (outermost first)
 	inLen  int      // >0 while walking the operand of len()/cap()
 }
@@ -134,9 +139,36 @@ func (sl *Slicer) Leaves(v ssa.Value) []Leaf {
 func (sl *Slicer) emit(l Leaf, c *sctx) {
 	l.Via = append([]string(nil), sl.trail...)
 	l.LenOnly = sl.inLen > 0
+	l.Hops = sl.hops
+	l.Off = -1
+	if len(sl.win) > 0 {
+		l.Off = sl.win[0]
+	}
+	l.Marks = map[string]bool{}
+	for _, t := range sl.trail {
+		if strings.HasPrefix(t, "binary.") {
+			l.Marks[t] = true
+		}
+	}
 	k := l.String()
-	if old, ok := sl.out[k]; ok && len(old.Via) <= len(l.Via) {
-		return // keep the shortest trail for a given origin
+	old, ok := sl.out[k]
+	if !ok {
+		sl.out[k] = l
+		return
+	}
+	// merge: shortest trail, earliest cursor position, union of codec markers
+	for m := range old.Marks {
+		l.Marks[m] = true
+	}
+	if len(old.Via) <= len(l.Via) {
+		l.Via = old.Via
+		l.V = old.V
+	}
+	if old.Hops < l.Hops || (old.Hops == l.Hops && old.Off >= 0 && (l.Off < 0 || old.Off < l.Off)) {
+		l.Hops, l.Off = old.Hops, old.Off
+	}
+	if len(old.Args) > 0 && len(l.Args) == 0 {
+		l.Args = old.Args
 	}
 	sl.out[k] = l
 }
@@ -211,7 +243,38 @@ func (sl *Slicer) walk(v ssa.Value, c *sctx, path string, sliced bool) {
 	case *ssa.SliceToArrayPointer:
 		sl.walk(x.X, c, path, sliced)
 	case *ssa.Slice:
+		adv := false
+		if x.Low != nil {
+			if k, ok := x.Low.(*ssa.Const); !ok || k.Value == nil || k.Int64() != 0 {
+				adv = x.High == nil
+			}
+		}
+		pushed := false
+		if x.High != nil && narrowingSlice(x) {
+			lo := int64(0)
+			okc := true
+			if x.Low != nil {
+				if k, ok := x.Low.(*ssa.Const); ok && k.Value != nil {
+					lo = k.Int64()
+				} else {
+					okc = false
+				}
+			}
+			if okc {
+				sl.win = append(sl.win, lo)
+				pushed = true
+			}
+		}
+		if adv {
+			sl.hops++
+		}
 		sl.walk(x.X, c, path, sliced || narrowingSlice(x))
+		if adv {
+			sl.hops--
+		}
+		if pushed {
+			sl.win = sl.win[:len(sl.win)-1]
+		}
 	case *ssa.BinOp:
 		sl.walk(x.X, c, path, sliced)
 		sl.walk(x.Y, c, path, sliced)
@@ -350,10 +413,24 @@ func (sl *Slicer) walkCell(cell ssa.Value, c *sctx, path string, sliced bool) {
 					n++
 					sl.walk(r.Call.Args[1], c, p, sliced)
 				}
+				// the cell's address is handed to a library function that fills it in
+				if depth == 0 {
+					if callee := r.Call.StaticCallee(); callee != nil && InLib(callee) && len(callee.Blocks) > 0 && c.depth < sl.MaxDepth {
+						for ai, a := range r.Call.Args {
+							if a == addr && ai < len(callee.Params) {
+								if sl.storesViaParam(r, callee, ai, wantField, rest, path, c, sliced, 0) {
+									n++
+								}
+							}
+						}
+					}
+				}
 				if callee := r.Call.StaticCallee(); callee != nil && len(r.Call.Args) >= 2 {
 					if FnPkgPath(callee) == "encoding/binary" && strings.HasPrefix(callee.Name(), "PutUint") && r.Call.Args[1] == addr {
 						n++
+						sl.trail = append(sl.trail, "binary."+callee.Name())
 						sl.walk(r.Call.Args[2], c, p, sliced)
+						sl.trail = sl.trail[:len(sl.trail)-1]
 					}
 				}
 			}
@@ -453,6 +530,11 @@ func (sl *Slicer) walkTuple(t ssa.Value, idx int, c *sctx, path string, sliced b
 			}
 		}
 		return
+	}
+	if callee != nil && FnPkgPath(callee) == "encoding/binary" && strings.HasPrefix(callee.Name(), "Uint") {
+		// decoding primitive: record it on the trail and continue into the bytes it reads
+		sl.trail = append(sl.trail, "binary."+callee.Name())
+		defer func() { sl.trail = sl.trail[:len(sl.trail)-1] }()
 	}
 	if sl.Through != nil {
 		if idxs := sl.Through(call, callee); idxs != nil {
@@ -615,4 +697,97 @@ func (sl *Slicer) storesThrough(v ssa.Value, c *sctx, path string, sliced bool) 
 // for its length is still visited for its content later.
 func (sl *Slicer) walkLen(v ssa.Value, c *sctx, path string, sliced bool) {
 	sl.walk(v, c, path, sliced)
+}
+
+// storesViaParam follows stores a callee makes through its pointer parameter pi into the cell the
+// caller passed (obj.f = v inside helper(obj, ...)), and through further helpers it passes it to.
+func (sl *Slicer) storesViaParam(call *ssa.Call, callee *ssa.Function, pi int, wantField, rest, fullPath string, c *sctx, sliced bool, depth int) bool {
+	if depth > 5 {
+		return false
+	}
+	found := false
+	nc := &sctx{call: call, parent: c, fn: callee, depth: c.depth + 1}
+	prm := callee.Params[pi]
+	refs := prm.Referrers()
+	if refs == nil {
+		return false
+	}
+	sl.trail = append(sl.trail, FnKey(callee))
+	defer func() { sl.trail = sl.trail[:len(sl.trail)-1] }()
+	for _, ref := range *refs {
+		switch r := ref.(type) {
+		case *ssa.FieldAddr:
+			if r.X != ssa.Value(prm) {
+				continue
+			}
+			if wantField != "" && fieldName(r.X.Type(), r.Field) != wantField {
+				continue
+			}
+			p := rest
+			if wantField == "" {
+				p = fullPath
+			}
+			var visit func(addr ssa.Value, d int)
+			visit = func(addr ssa.Value, d int) {
+				if d > 3 || addr.Referrers() == nil {
+					return
+				}
+				for _, rr := range *addr.Referrers() {
+					switch w := rr.(type) {
+					case *ssa.Store:
+						if w.Addr == addr {
+							found = true
+							sl.walk(w.Val, nc, p, sliced)
+						}
+					case *ssa.IndexAddr:
+						if w.X == addr {
+							visit(w, d+1)
+						}
+					case *ssa.Slice:
+						if w.X == addr {
+							visit(w, d+1)
+						}
+					case *ssa.Call:
+						if bi, ok := w.Call.Value.(*ssa.Builtin); ok && bi.Name() == "copy" && len(w.Call.Args) == 2 && w.Call.Args[0] == addr {
+							found = true
+							sl.walk(w.Call.Args[1], nc, p, sliced)
+						}
+					case *ssa.UnOp:
+						// loaded slice/pointer then written through: elements / copy destination
+						for _, r3 := range *w.Referrers() {
+							switch u := r3.(type) {
+							case *ssa.IndexAddr:
+								if u.X == ssa.Value(w) {
+									visit(u, d+1)
+								}
+							case *ssa.Call:
+								if bi, ok := u.Call.Value.(*ssa.Builtin); ok && bi.Name() == "copy" && len(u.Call.Args) == 2 && u.Call.Args[0] == ssa.Value(w) {
+									found = true
+									sl.walk(u.Call.Args[1], nc, p, sliced)
+								}
+							}
+						}
+					}
+				}
+			}
+			visit(r, 0)
+		case *ssa.Store:
+			// whole-struct store *p = v
+			if r.Addr == ssa.Value(prm) {
+				found = true
+				sl.walk(r.Val, nc, fullPath, sliced)
+			}
+		case *ssa.Call:
+			if inner := r.Call.StaticCallee(); inner != nil && InLib(inner) && len(inner.Blocks) > 0 {
+				for ai, a := range r.Call.Args {
+					if a == ssa.Value(prm) && ai < len(inner.Params) {
+						if sl.storesViaParam(r, inner, ai, wantField, rest, fullPath, nc, sliced, depth+1) {
+							found = true
+						}
+					}
+				}
+			}
+		}
+	}
+	return found
 }
